@@ -12,7 +12,7 @@ Definition exp_ser_prints : list (string * string) := [
   ("QBytesTensor.__init__", "e098f7b86d37d834");
   ("PackedTensor.__init__", "fb20cf75568bdc59");
   ("QModuleMixin._save_to_state_dict", "7d403032e904c165");
-  ("QModuleMixin._load_from_state_dict", "9bac238ec67b0a05");
+  ("QModuleMixin._load_from_state_dict", "292173ce789c4a79");
   ("safe_save", "8b0b34c49eee8285");
   ("safe_load", "8c094e2327abd27c");
   ("requantize", "69ea8b35b7db9df3")].
